@@ -435,12 +435,26 @@ class Ev:
         c = ops.const_val(off)
         if c == 0:
             return Val('string', {('s',): arr, ('n',): n})
+        if self.quant:
+            # under a binder the offset depends on the bound variable: a function of (row,
+            # offset) with its defining axiom (no new shift terms arise from instantiation)
+            A = z3.ArraySort(I, I)
+            f = ops.uf('seqshift', A, I, A)
+            aa, oo, kk = z3.Const('shift_a', A), z3.Int('shift_o'), z3.Int('shift_k')
+            self.st.assume(z3.ForAll([aa, oo, kk], z3.Select(f(aa, oo), kk) == z3.Select(aa, oo + kk),
+                                     patterns=[z3.Select(f(aa, oo), kk)]))
+            return Val('string', {('s',): f(arr, off), ('n',): n})
+        # one name per (row, offset) and state: two views of the same bytes are the same term
+        cache = self.st.subcache
+        ck = (arr.get_id(), z3.simplify(off).get_id())
+        hit = cache.get(ck)
+        if hit is not None:
+            return Val('string', {('s',): hit[0], ('n',): n})
         a = z3.Const(fresh_name('sub'), z3.ArraySort(I, I))
         k = z3.Int(fresh_name('k'))
         ax = z3.ForAll([k], z3.Select(a, k) == z3.Select(arr, off + k))
-        if self.quant:
-            raise SpecError('shifted subsequence under a quantifier')
         self.st.assume(ax)
+        cache[ck] = (a, arr, off)
         return Val('string', {('s',): a, ('n',): n})
 
     def to_seq(self, x):
